@@ -1,5 +1,6 @@
 import PEval.Model.Geometry
 import PEval.Model.Heading
+import PEval.Model.Filter
 /-!
 Model for C07: the same physical scene rendered in the ego frame (`BASE_LINK`) and in the map frame
 with the ego pose supplied as the frame's `base_link → map` transform.
@@ -110,5 +111,88 @@ def containsPose (os : List Obj) (o : Obj) : Bool := os.any (fun x => o.samePose
 
 /-- who is equal to whom in a list of objects (row `i`, column `j`: `os[i] == os[j]`) -/
 def sameTable (os : List Obj) : List (List Bool) := os.map (fun a => os.map (fun b => a.samePose b))
+
+/-! ## full 3-D content: heights of the objects and of the ego, and every filter criterion
+
+Real scenes are not flat: objects stand several metres above or below the ego (overpasses, ramps),
+and the ego's own height in the map is not zero. `transform((MAP, BASE_LINK), position)` inverts the
+whole homogeneous matrix (`toEgo3`); the range filter then reads the PLANAR part of the result only:
+`abs(position_[0])`, `abs(position_[1])` for the x/y box and `get_distance_bev` =
+`hypot(position[0], position[1])` for the distance ring (`bevDist2Map`, squared). The height never
+enters a filter decision, whatever the frame (`norm3sq` is what a 3-D norm would give instead).
+
+`filterViewEgo` / `filterViewMap` are what `_is_target_object` (model: `PEval.Filter`, property C10)
+reads from a 3-D object of the ego rendering / of the map rendering with the ego pose supplied, together
+with the frame-free attributes the other criteria look at (`Tag`: label, attributes, confidence, point
+count, uuid). `keptEgo` / `keptMap` run the evaluation config's filter and then the critical object
+filter over the ground truths of a frame, as `add_frame_result` does, and return the surviving ids. -/
+
+/-- `transform((MAP, BASE_LINK), p)` in 3-D: inverse planar motion, height relative to the ego -/
+def toEgo3 (e : Pose) (p : V3) : V3 :=
+  let q := toEgo2 e ⟨p.x, p.y⟩
+  ⟨q.x, q.y, p.z - e.t.z⟩
+
+/-- `get_distance_bev()` squared for an ego-frame object -/
+def bevDist2Ego (o : Obj) : Rat := o.box.center.x * o.box.center.x + o.box.center.y * o.box.center.y
+
+/-- `get_distance_bev(transforms)` squared for a map-frame object: planar norm of the ego-relative position -/
+def bevDist2Map (e : Pose) (o : Obj) : Rat :=
+  let p := toEgo3 e o.box.center
+  p.x * p.x + p.y * p.y
+
+/-- squared 3-D norm (NOT what the ring filter uses; for contrast in the examples) -/
+def norm3sq (p : V3) : Rat := p.x * p.x + p.y * p.y + p.z * p.z
+
+/-- the frame-free attributes of an object that the filter criteria read -/
+structure Tag where
+  id : Nat
+  label : String
+  name : String
+  attributes : List String
+  score : Rat
+  pcNum : Option Int
+  uuid : Option String
+deriving Repr
+
+/-- an object of a scene with its attributes -/
+structure Tagged where
+  tag : Tag
+  obj : Obj
+deriving Repr
+
+def Tagged.toMap (e : Pose) (t : Tagged) : Tagged := ⟨t.tag, t.obj.toMap e⟩
+
+/-- what `_is_target_object` reads from an ego-frame object -/
+def filterViewEgo (t : Tagged) : Filter.Obj :=
+  { id := t.tag.id, label := t.tag.label, name := t.tag.name, attributes := t.tag.attributes, score := t.tag.score,
+    pcNum := t.tag.pcNum, uuid := t.tag.uuid, is2d := false, frame := "base_link",
+    pos := some ⟨t.obj.box.center.x, t.obj.box.center.y⟩, egoPos := none }
+
+/-- … and from a map-frame object with the ego pose `e` supplied -/
+def filterViewMap (e : Pose) (t : Tagged) : Filter.Obj :=
+  { id := t.tag.id, label := t.tag.label, name := t.tag.name, attributes := t.tag.attributes, score := t.tag.score,
+    pcNum := t.tag.pcNum, uuid := t.tag.uuid, is2d := false, frame := "map",
+    pos := some ⟨t.obj.box.center.x, t.obj.box.center.y⟩,
+    egoPos := some ⟨(toEgo3 e t.obj.box.center).x, (toEgo3 e t.obj.box.center).y⟩ }
+
+/-- the planar part of the ego pose, as the filter model of C10 spells it -/
+def Pose.planar (e : Pose) : Filter.Pose := ⟨e.rot.c, e.rot.s, e.t.x, e.t.y⟩
+
+/-- two filters in a row (evaluation config, then critical object filter); the first error wins -/
+def filter2 (Pm Pc : Filter.Params) (os : List Filter.Obj) : Except Err (List Filter.Obj) :=
+  match Filter.filterObjects Pm os with
+  | .error err => .error err
+  | .ok ks => Filter.filterObjects Pc ks
+
+def idsOf (r : Except Err (List Filter.Obj)) : Except Err (List Nat) := r.map (List.map (·.id))
+
+/-- ids of the ground truths that survive both filters, ego rendering (`transforms` is always supplied
+by the manager, also for ego-frame objects) -/
+def keptEgo (Pm Pc : Filter.Params) (os : List Tagged) : Except Err (List Nat) :=
+  idsOf (filter2 { Pm with hasTransforms := true } { Pc with hasTransforms := true } (os.map filterViewEgo))
+
+/-- … map rendering (the objects are given in the map frame) with the ego pose supplied -/
+def keptMap (e : Pose) (Pm Pc : Filter.Params) (os : List Tagged) : Except Err (List Nat) :=
+  idsOf (filter2 { Pm with hasTransforms := true } { Pc with hasTransforms := true } (os.map (filterViewMap e)))
 
 end PEval.FrameChange
